@@ -20,6 +20,6 @@ p,cmd=sys.argv[1:3]
 m=json.load(open(p)); m['demo_cmd']=cmd; m['round']=2
 json.dump(m,open(p,'w'),indent=1)
 PY
-    "$VERIF/tools/seeded.sh" "$id" | tail -1 | cut -c1-230
+    [ -n "$NOCHECK" ] || "$VERIF/tools/seeded.sh" "$id" | tail -1 | cut -c1-230
   fi
 done
